@@ -190,7 +190,7 @@ def _pair(ctx, m, kind, rs, js):
                f"d/dy_col of {rs.text!r}: col over the factor list with multiplicity, term {js.text!r} with the column's factor removed from a fresh copy")
 
 
-def _r4_templates(ctx):
+def _r4_templates(ctx, rule_decode="R4", rule_omit="R6"):
     n = 0
     for label, rel, cfg, fname, callee in (("cvode/dense", DENSE, {"general.method": "dense"}, "Jac", "IJth"),
                                            ("odeint", ODEINT, {}, "Jac::operator()", "j")):
@@ -200,11 +200,11 @@ def _r4_templates(ctx):
         loops = [(it, off) for it, off in sk.items_in(fname) if it[0] == "for" and J.path(J.unfilter(it[2])[0]) == "ode.jac.rhs"]
         key = f"{label}:{fname}:for ode.jac.rhs"
         if len(loops) != 1:
-            (ctx.bad if loops else ctx.missing)("R4", key, (rel, 0), f"{fname} iterates ode.jac.rhs {len(loops)} times, expected once")
+            (ctx.bad if loops else ctx.missing)(rule_decode, key, (rel, 0), f"{fname} iterates ode.jac.rhs {len(loops)} times, expected once")
             continue
         it = loops[0][0]
         if it[2] != ("attr", ("attr", ("name", "ode"), "jac"), "rhs") or it[7] is not None:
-            ctx.bad("R4", key, (rel, it[5]), f"loop over ode.jac.rhs is filtered/sliced: {J.show(it[2])}")
+            ctx.bad(rule_decode, key, (rel, it[5]), f"loop over ode.jac.rhs is filtered/sliced: {J.show(it[2])}")
             continue
         var = it[1]
         # environment of {% set %} inside / before the loop
@@ -223,7 +223,7 @@ def _r4_templates(ctx):
         pat = re.compile(re.escape(callee) + r"\s*\(\s*(?:jmatrix\s*,\s*)?\x00(\d+)\x00\s*,\s*\x00(\d+)\x00\s*\)\s*=\s*\x00(\d+)\x00\s*;")
         mm = pat.search(txt)
         if not mm:
-            ctx.bad("R4", key, (rel, it[5]), f"no `{callee}(.., row, col) = value;` assignment found in the loop body", found=txt.replace("\x00", "#")[:120])
+            ctx.bad(rule_decode, key, (rel, it[5]), f"no `{callee}(.., row, col) = value;` assignment found in the loop body", found=txt.replace("\x00", "#")[:120])
             continue
         rowe, cole, vale = (flat[int(g)][1] for g in mm.groups())
 
@@ -239,22 +239,22 @@ def _r4_templates(ctx):
         idx0 = ("attr", ("name", "loop"), "index0")
         row_ok = rowe == ("filter", "int", ("bin", "/", idx0, nrow), (), ()) or rowe == ("bin", "//", idx0, nrow)
         col_ok = cole == ("bin", "%", idx0, nrow)
-        ctx.check(row_ok, "R4", f"{label}:row-decode", (rel, it[5]), "row = (loop.index0 / ode.jac.nrow) | int",
+        ctx.check(row_ok, rule_decode, f"{label}:row-decode", (rel, it[5]), "row = (loop.index0 / ode.jac.nrow) | int",
                   expected="(loop.index0/ode.jac.nrow)|int", found=J.show(rowe))
-        ctx.check(col_ok, "R4", f"{label}:col-decode", (rel, it[5]), "col = loop.index0 % ode.jac.nrow",
+        ctx.check(col_ok, rule_decode, f"{label}:col-decode", (rel, it[5]), "col = loop.index0 % ode.jac.nrow",
                   expected="loop.index0 % ode.jac.nrow", found=J.show(cole))
         base, fs = J.unfilter(vale)
-        ctx.check(base == var and all(f[0] == "stmwrap" for f in fs), "R4", f"{label}:value", (rel, it[5]),
+        ctx.check(base == var and all(f[0] == "stmwrap" for f in fs), rule_decode, f"{label}:value", (rel, it[5]),
                   "the assigned value is the loop's own entry through whitespace-only filters", found=J.show(vale))
         # R6 (template side): omitted iff == sentinel
         conds = [st for x, st in J.walk_items(it[3]) if x is flat[int(mm.group(3))]]
         guards = [g for g in (conds[0] if conds else ()) if g[0] in ("if+", "if-")]
         want = ("cmp", var, (("ne", ("const", "0.0")),))
         g_ok = len(guards) == 1 and guards[0][0] == "if+" and guards[0][1] == want
-        ctx.check(g_ok, "R6", f"{label}:omit-iff-sentinel", (rel, it[5]), "an entry is skipped iff it equals the sentinel '0.0'",
+        ctx.check(g_ok, rule_omit, f"{label}:omit-iff-sentinel", (rel, it[5]), "an entry is skipped iff it equals the sentinel '0.0'",
                   expected='{% if r != "0.0" %}', found="; ".join(J.show(g[1]) for g in guards))
         n += 1
-    ctx.floor("R4", "dense-layout templates", n, 2)
+    ctx.floor(rule_decode, "dense-layout templates", n, 2)
 
 
 # -------------------------------------------------------------------- R5 dataclass calls
